@@ -28,6 +28,9 @@ def r3_make_all(ctx):
     rid = "C13.R3"
     ctx.rule(rid, "make_all_uci: every make is pushed on one local list; the Err arm takes that list back in reverse inside a loop before returning; Ok only from normal loop exit (or, snapshot style: the Err arm restores every field Bitboard::make writes)", floor=1)
     f = ctx.fn(rid, BB + "make_all_uci")
+    # as written: a lookup helper that is new to the reviewed tree (and was spliced in for the other rules) brings its
+    # own probing make / unmake pair into the loop, which is not part of the roll-back protocol judged here
+    f = getattr(ctx.prog, "raw_fns", {}).get(BB + "make_all_uci", f)
     cfg, ex = Cfg(f), Exprs(f)
     makes, unmakes, pushes = [], [], []
     for b in sorted(cfg.reach):
@@ -381,6 +384,10 @@ def r6_ok_means_probed(ctx):
     from ..cfg import Cfg
     for name in ("find_uci", "uci_to_pgn", "make_uci"):
         f = ctx.fn(rid, BB + name)
+        if name == "make_uci":
+            # as written: it delegates the probe; a new lookup helper spliced in would be read path-insensitively
+            # (its `Illegal` outcome flows into the same match as `Legal`)
+            f = getattr(ctx.prog, "raw_fns", {}).get(BB + name, f)
         cfg, ex = Cfg(f), Exprs(f)
         oks = []
         for b in sorted(cfg.reach):
